@@ -267,15 +267,17 @@ def first_field_diff(exp, obs):
 def check_ids(acc, o, algo, kind, where, replay):
     """Oracle 1: every name the object reports is the hash of ITS OWN current bytes."""
     O, FMT = _O()
+    # names first, bytes last: as_raw_string() refreshes caches a stale name would otherwise show
+    got_id, got_sha, got_alg, got_len = o.id, o.sha().hexdigest().encode(), o.get_id(FMT[algo]), o.raw_length()
     data = o.as_raw_string()
     bad = []
-    if o.id != harness_id("sha1", kind, data):
+    if got_id != harness_id("sha1", kind, data):
         bad.append("id")
-    if o.sha().hexdigest().encode() != harness_id("sha1", kind, data):
+    if got_sha != harness_id("sha1", kind, data):
         bad.append("sha()")
-    if o.get_id(FMT[algo]) != harness_id(algo, kind, data):
+    if got_alg != harness_id(algo, kind, data):
         bad.append("get_id(%s)" % algo)
-    if o.raw_length() != len(data):
+    if got_len != len(data):
         bad.append("raw_length")
     if bad:
         acc.violation("%s:%s:%s-is-not-hash-of-own-content" % (kind, where, bad[0]),
@@ -523,6 +525,7 @@ def case_object(acc: Acc, algo, kind, L, tag="rust", fam="A"):
                 P = d_parse(kind, R, algo)
                 P.id  # cache filled: the situation a stale-cache bug needs
                 dict(touches(kind, P))[label]()
+                check_ids(acc, P, algo, kind, "reserialise-unchanged", me)  # names before bytes
                 got = P.as_raw_string()
             except Exception as e:
                 acc.violation("%s:reserialise-unchanged:raises-%s" % (K, type(e).__name__), "%r after %s=%s on %r" % (e, label, label, R), me)
@@ -534,7 +537,6 @@ def case_object(acc: Acc, algo, kind, L, tag="rust", fam="A"):
             if cls != "same":
                 acc.violation("%s:reserialise-unchanged:%s" % (K, cls),
                               "parse %r; o.%s = o.%s; as_raw_string() -> %r" % (R, label, label, got), me)
-            check_ids(acc, P, algo, kind, "reserialise-unchanged", me)
         # --- re-serialise after exactly one field change
         for label, fn, L2 in edits(kind, L, algo):
             want = ref.serialize(kind, L2, algo)
@@ -543,6 +545,7 @@ def case_object(acc: Acc, algo, kind, L, tag="rust", fam="A"):
                 P.id
                 P.get_id(FMT[algo])
                 fn(P)
+                check_ids(acc, P, algo, kind, "after-set-%s" % label, me)  # names before bytes
                 got = P.as_raw_string()
             except Exception as e:
                 acc.violation("%s:reserialise-after-set-%s%s:raises-%s" % (K, label, input_class(kind, L, label), type(e).__name__),
@@ -558,7 +561,6 @@ def case_object(acc: Acc, algo, kind, L, tag="rust", fam="A"):
             elif cls != "same":
                 acc.violation("%s:reserialise-after-set-%s%s:%s" % (K, label, input_class(kind, L, label), cls),
                               "parse %r; change %s; got %r want %r" % (R, label, got, want), me)
-            check_ids(acc, P, algo, kind, "after-set-%s" % label, me)
     return R, loose
 
 
@@ -1414,6 +1416,10 @@ def work(task):
                                       rp(case_history, k, start, base, tag, [[l, list(op)] for l, op in seq]))
     elif kind == "gitbuilt":
         git_built(acc, task[1], task[2])
+    elif kind == "store":
+        store_batch(acc, task[1], task[2])
+    elif kind == "info":
+        info_cases(acc, task[1])
     else:
         raise AssertionError(kind)
     return acc
@@ -1598,6 +1604,145 @@ def git_built(acc: Acc, algo, quick):
         rmtree(d)
 
 
+# --------------------------------------------------------------------------- family S: names inside object stores
+
+
+def _store_add(repo, path, algo, kind, L):
+    """dulwich adds a fresh object to a (git-initialised) repository of the given object format
+    -> (name the harness computes from dulwich's bytes, bytes, reason or None)"""
+    F = d_build(kind, L, algo)
+    raw = F.as_raw_string()
+    name = harness_id(algo, kind, raw)
+    store = repo.object_store
+    store.add_object(F)
+    why = None
+    if not os.path.exists(os.path.join(path, "objects", name[:2].decode(), name[2:].decode())):
+        why = "stored-under-a-name-that-is-not-the-%s-of-its-content" % algo
+    elif name not in store:
+        why = "contains-denies-own-object"
+    else:
+        back = store[name]
+        if back.type_name != kind.encode() or back.as_raw_string() != raw:
+            why = "read-back-differs"
+        elif back.id != name or back.get_id(repo.object_format) != name:
+            why = "read-back-object-reports-another-name"
+    return name, raw, why
+
+
+def _store_open(algo):
+    from dulwich.repo import Repo
+
+    path = g_init(algo)
+    repo = Repo(path)
+    if repo.object_format.name != algo:
+        raise HarnessError("dulwich opened a %s repository as %s" % (algo, repo.object_format.name))
+    for k, data, rid in pool(algo)["prereq"]:
+        repo.object_store.add_object(d_parse(k, data, algo))
+    return path, repo
+
+
+def case_store_one(acc: Acc, algo, kind, L):
+    if kind in ("commit", "tag"):
+        L = dict(L)
+    elif kind == "tree":
+        L = tuple(tuple(e) for e in L)
+    me = rp(case_store_one, algo, kind, L)
+    path, repo = _store_open(algo)
+    try:
+        name, raw, why = _store_add(repo, path, algo, kind, L)
+        if why is None:
+            got = g_cat_batch(path, [name])[0]
+            if got != (kind.encode(), raw):
+                why = "git-reads-something-else"
+            elif is_clean(kind, L) and raw == ref.serialize(kind, L, algo):
+                found, other = g_fsck(path)
+                bad = [m.decode() for s_, t, i, m in found if i == name and not (s_ == b"warning" and m in ALLOWED_INFO)]
+                if bad or other:
+                    why = "git-fsck-" + (bad[0] if bad else "complains")
+        acc.count("S_individual")
+        if why:
+            acc.violation("store:%s:add_object:%s" % (algo, why), "%s %r" % (kind, raw[:200]), me)
+    finally:
+        repo.close()
+        rmtree(path)
+
+
+def store_batch(acc: Acc, algo, items):
+    path, repo = _store_open(algo)
+    suspects = []
+    try:
+        names = {}
+        for kind, L in items:
+            acc.count("S_store_objects")
+            acc.count("evaluations")
+            name, raw, why = _store_add(repo, path, algo, kind, L)
+            if why:
+                suspects.append((kind, L))
+            else:
+                names[name] = (kind, L, raw)
+        ids = sorted(names)
+        for i, got in zip(ids, g_cat_batch(path, ids)):
+            kind, L, raw = names[i]
+            if got != (kind.encode(), raw):
+                suspects.append((kind, L))
+            else:
+                acc.count("S_git_reads_store_object")
+        found, other = g_fsck(path)
+        unclean = any(not is_clean(k, L) for k, L in items)
+        for s_, t, i, m in found:
+            if i in names and not (s_ == b"warning" and m in ALLOWED_INFO) and not (unclean and m.startswith(b"gitmodules")):
+                kind, L, raw = names[i]
+                if is_clean(kind, L) and raw == ref.serialize(kind, L, algo):
+                    suspects.append((kind, L))
+        if other:
+            raise HarnessError("git fsck on the dulwich-filled store prints %r" % (other[:3],))
+        acc.outcome("S:%s:objects-added-and-read-by-git" % algo)
+    finally:
+        repo.close()
+        rmtree(path)
+    for kind, L in suspects:
+        case_store_one(acc, algo, kind, L)
+
+
+# --------------------------------------------------------------------------- informational (outside the statement)
+
+
+def info_cases(acc: Acc, algo):
+    """Well-formed but not in the layout C git writes; recorded as outcome classes only."""
+    P = pool(algo)
+    base = ref.commit(P["T0"], (P["C0"],), AU, CO, None, (), (), None, b"m\n")
+    hdr = ref.header_block
+    variants = {
+        "extra-before-mergetag": [(b"foo", b"bar"), (b"mergetag", P["MT_PGP"][:-1])],
+        "gpgsig-before-extra": [(b"gpgsig", PGP_SIG), (b"foo", b"bar")],
+        "gpgsig-before-mergetag": [(b"gpgsig", PGP_SIG), (b"mergetag", P["MT_PGP"][:-1])],
+        "extra-between-mergetags": [(b"mergetag", P["MT_PGP"][:-1]), (b"foo", b"bar"), (b"mergetag", P["MT_SSH"][:-1])],
+    }
+    for name, extra_headers in variants.items():
+        raw = hdr(ref.commit_headers(base) + extra_headers) + b"\n" + base["message"]
+        try:
+            c = d_parse("commit", raw, algo)
+            c.message = c.message
+            acc.outcome("info:commit-header-order:%s:%s" % (name, "preserved" if c.as_raw_string() == raw else "reordered-on-rewrite"))
+        except Exception as e:
+            acc.outcome("info:commit-header-order:%s:raises-%s" % (name, type(e).__name__))
+    for z in (b"+0060", b"+0099", b"-0075", b"+9959"):
+        raw = ref.serialize_commit(_with(base, author=(AU[0], AU[1], b"+0000"))).replace(b"+0000\ncommitter", z + b"\ncommitter")
+        try:
+            c = d_parse("commit", raw, algo)
+            c.message = c.message
+            acc.outcome("info:timezone-minutes>=60:%s:%s" % (z.decode(), "preserved" if c.as_raw_string() == raw else "normalised-on-rewrite"))
+        except Exception as e:
+            acc.outcome("info:timezone-minutes>=60:%s:raises-%s" % (z.decode(), type(e).__name__))
+    raw = ref.serialize_commit(base).replace(b"\n\nm\n", b"\nempty\n\nm\n")  # git writes a valueless header as "key LF"
+    try:
+        c = d_parse("commit", raw, algo)
+        c.message = c.message
+        acc.outcome("info:valueless-extra-header:%s" % ("preserved" if c.as_raw_string() == raw else "changed-on-rewrite"))
+    except Exception as e:
+        acc.outcome("info:valueless-extra-header:raises-%s" % type(e).__name__)
+
+
 # --------------------------------------------------------------------------- run
 
 
@@ -1657,11 +1802,20 @@ def run(ctx):
                         tasks.append(("history", kind, start, base, tag, 2, [(o,) for o in ops], seed))
                     for part in _chunks(firsts, max(1, len(firsts) // 24)):
                         tasks.append(("history", kind, start, base, tag, d, part, seed))
-    # ---- G
+    # ---- G, S, informational
     for algo in ALGOS:
         tasks.append(("gitbuilt", algo, q))
+        tasks.append(("info", algo))
+        step = (40, 20, 10, 1) if q else (10, 5, 3, 1)
+        sample = []
+        for (kind, gen), st in zip((("tree", gen_trees(algo, 3)), ("commit", gen_commits(algo, True)), ("tag", gen_tags(algo, True)),
+                                    ("blob", gen_blobs(True))), step):
+            sample += [(kind, L) for L in list(gen)[::st]]
+        sizes[algo]["store_sample"] = len(sample)
+        for part in _chunks(sample, 400):
+            tasks.append(("store", algo, part))
 
-    order = {"gitbuilt": 0, "history": 1, "objects": 2, "blobchunks": 3}
+    order = {"gitbuilt": 0, "history": 1, "objects": 2, "store": 2, "blobchunks": 3, "info": 3}
     tasks.sort(key=lambda t: order[t[0]])  # long tasks first
     if seed:
         tasks = ctx.order(tasks)
@@ -1685,6 +1839,9 @@ def run(ctx):
             "small blob content through 5 ways of handing chunks to a Blob.  H: every sequence of <=%d/%d/%d/%d (blob/tree/commit/"
             "tag) setter-or-observer calls followed by one of the observers id, as_raw_string, sha(), get_id(SHA256), raw_length, "
             "from a fresh and from a parsed start object, two base objects each; oracle = fresh object with the same field values.  "
+            "S: every 40th/20th/10th (thorough 10th/5th/3rd) tree/commit/tag and every blob of A added with add_object() to a "
+            "git-initialised sha1 and sha256 repository opened by dulwich: stored under, found by and read back under the hash "
+            "of its bytes, readable by git cat-file/fsck.  "
             "G: commits/tags/merges C git builds itself from the same field values (commit-tree, tag -a/-s with stub signers, "
             "merge of signed tags).  distinct_nontrivial = observed structural / outcome classes other than plain agreement."
             % (3 if q else 4, [x.decode("latin1") for x in TREE_NAMES], ["%o" % m for m in TREE_MODES], len(TREE_SPECIAL_NAMES),
@@ -1695,6 +1852,7 @@ def run(ctx):
         bounds={"tree_entries": 3 if q else 4, "extra_headers": 2 if q else 3, "history_ops_before_final_observer": {k: v - 1 for k, v in depth.items()},
                 "objects_per_algo": sizes, "blob_chunkings": len(chs)},
         rust_extension=paths["_objects"],
+        outcome_classes=dict(sorted(classes.items())),
         traces_validated_against_impl=n.get("evaluations", 0),
     )
     ctx.assumptions += [
